@@ -3,6 +3,7 @@ package main
 // Builders for deterministic runs of the six protocols on the scheduler.
 
 import (
+	"crypto/elliptic"
 	"bufio"
 	"fmt"
 	"io"
@@ -156,6 +157,14 @@ type kgOpts struct {
 	ui    []*big.Int   // chosen partial secrets u_i (by sorted index); nil = deterministic random
 	coefs [][]*big.Int // chosen polynomial coefficients a_1..a_t per party
 	seed  string
+	ec    elliptic.Curve // ECDSA only; nil = secp256k1
+}
+
+func curveOr(ec elliptic.Curve) elliptic.Curve {
+	if ec == nil {
+		return tss.S256()
+	}
+	return ec
 }
 
 func buildEdDSAKeygen(n, t int, o kgOpts) *runCtx {
@@ -214,7 +223,7 @@ func buildECDSAKeygen(n, t int, o kgOpts) *runCtx {
 	for i, pid := range pids {
 		node, out := newNode(fmt.Sprintf("N%d", i), 'N', i, pid)
 		end := make(chan *ecdsakeygen.LocalPartySaveData, 8)
-		params := tss.NewParameters(tss.S256(), ctx, pid, n, t+cfgDelta(fmt.Sprintf("N%d", i)))
+		params := tss.NewParameters(curveOr(o.ec), ctx, pid, n, t+cfgDelta(fmt.Sprintf("N%d", i)))
 		var pk, pr []byte
 		if o.ui != nil {
 			pk = beN(o.ui[i], 32)
@@ -252,6 +261,7 @@ type signOpts struct {
 	seed     string
 	kdd      *big.Int // key derivation delta (ECDSA)
 	realRand bool     // leave the library's default entropy source (crypto/rand) in place
+	ec       elliptic.Curve // ECDSA only; nil = secp256k1
 }
 
 func sigDrain(end chan *common.SignatureData) func() []interface{} {
@@ -276,7 +286,7 @@ func buildECDSASign(keys []ecdsakeygen.LocalPartySaveData, pids tss.SortedPartyI
 	for i, pid := range pids {
 		node, out := newNode(fmt.Sprintf("N%d", i), 'N', i, pid)
 		end := make(chan *common.SignatureData, 8)
-		params := tss.NewParameters(tss.S256(), ctx, pid, len(pids), t)
+		params := tss.NewParameters(curveOr(o.ec), ctx, pid, len(pids), t)
 		var pr []byte
 		if o.first != nil {
 			for _, c := range o.first[i] {
@@ -334,6 +344,7 @@ type reshareOpts struct {
 	seed     string
 	coefs    [][]*big.Int // per old member: chosen coefficients of its dealing polynomial
 	noProofs bool
+	ec       elliptic.Curve // ECDSA only; nil = secp256k1
 }
 
 func buildEdDSAReshare(oldKeys []eddsakeygen.LocalPartySaveData, oldPIDs tss.SortedPartyIDs, keyN, oldT int, o reshareOpts) *runCtx {
@@ -417,7 +428,7 @@ func buildECDSAReshareOpt(oldKeys []ecdsakeygen.LocalPartySaveData, oldPIDs tss.
 	for i, pid := range oldPIDs {
 		node, out := newNode(fmt.Sprintf("O%d", i), 'O', i, pid)
 		end := make(chan *ecdsakeygen.LocalPartySaveData, 8)
-		params := tss.NewReSharingParameters(tss.S256(), oldCtx, newCtx, pid, keyN, oldT, len(newPIDs), o.newT+cfgDelta(fmt.Sprintf("O%d", i)))
+		params := tss.NewReSharingParameters(curveOr(o.ec), oldCtx, newCtx, pid, keyN, oldT, len(newPIDs), o.newT+cfgDelta(fmt.Sprintf("O%d", i)))
 		if o.noProofs {
 			params.SetNoProofMod()
 			params.SetNoProofFac()
@@ -440,7 +451,7 @@ func buildECDSAReshareOpt(oldKeys []ecdsakeygen.LocalPartySaveData, oldPIDs tss.
 	for i, pid := range newPIDs {
 		node, out := newNode(fmt.Sprintf("N%d", i), 'N', i, pid)
 		end := make(chan *ecdsakeygen.LocalPartySaveData, 8)
-		params := tss.NewReSharingParameters(tss.S256(), oldCtx, newCtx, pid, keyN, oldT, len(newPIDs), o.newT+cfgDelta(fmt.Sprintf("N%d", i)))
+		params := tss.NewReSharingParameters(curveOr(o.ec), oldCtx, newCtx, pid, keyN, oldT, len(newPIDs), o.newT+cfgDelta(fmt.Sprintf("N%d", i)))
 		if o.noProofs {
 			params.SetNoProofMod()
 			params.SetNoProofFac()
